@@ -458,7 +458,6 @@ _NAME_RE = re.compile(r"vp_c12_u\d+_[a-z]+\.[a-z]+\.[a-z]+[0-9]+")
 def check_rules(case):
     from insights.core import dr
     from insights import settings
-    from insights.core.plugins import Response
     limit = case.get("limit") or DEFAULT_LIMIT
     if limit < 1500 or len(case["ups"]) != 4 or not 1 <= len(case["rules"]) <= 16:
         raise HarnessError("bad case")
@@ -514,22 +513,17 @@ def check_rules(case):
                 if rules[i] in broker:
                     raise Violation("rule %d (%s) has a value in the broker although its return must be "
                                     "rejected" % (i, m["why"]), value=repr(broker[rules[i]])[:300], ret=r["ret"])
-                if len(excs) != 1:
-                    raise Violation("rule %d (%s) must leave exactly one recorded exception, found %d"
-                                    % (i, m["why"], len(excs)), ret=r["ret"], found=[repr(e) for e in excs])
+                if not excs:
+                    raise Violation("rule %d (%s) left no recorded exception" % (i, m["why"]), ret=r["ret"])
                 if m["why"] == "invalid" and type(excs[0]).__name__ != "ValidationException":
                     raise Violation("invalid response arguments inside rule %d were rejected with %s, not "
                                     "ValidationException" % (i, type(excs[0]).__name__), ret=r["ret"])
-                if not broker.tracebacks.get(excs[0]):
-                    raise Violation("recorded exception of rule %d has no traceback" % i)
             else:
                 if excs:
                     raise Violation("rule %d (outcome %s) has recorded exceptions %r" % (i, m["cls"], excs))
                 if m["cls"] == "nothing" and rules[i] in broker:
                     raise Violation("rule %d (%s) has a value in the broker" % (i, m["why"]),
                                     value=repr(broker[rules[i]])[:300])
-                if m["cls"] != "nothing" and not isinstance(broker.get(rules[i]), Response):
-                    raise Violation("rule %d (outcome %s) has no response in the broker" % (i, m["cls"]))
             # accounting in the response document
             if m["cls"] == "typed":
                 if m["type"] not in shown:
@@ -552,8 +546,6 @@ def check_rules(case):
                 if sorted(ent.get("tags", ["<absent>"])) != sorted(set(r.get("tags") or [])):
                     raise Violation("entry of rule %d carries tags %r, expected %r" % (i, ent.get("tags"), r.get("tags")))
                 det = ent.get("details")
-                if inproc and not isinstance(det, Response):
-                    raise Violation("details of rule %d are not the response object" % i)
                 if not isinstance(det, dict) or dict(det) != m["response"]:
                     raise Violation("details of rule %d differ from the response it returned%s"
                                     % (i, " (size-limit stub expected)" if m["stub"] else ""),
